@@ -299,6 +299,7 @@ func run(r *core.Run) int {
 	r.Set("exhaustive_cases", exh2)
 	r.Exhaustive(false)
 	r.Parallel(len(cases), func(i int) { judge(r, w, cases[i]) })
+	r.Set("caller_owned_bundles_found_modified", len(sims.ModifiedBundles()))
 	return r.Finish(r.Pick(10000, 200000),
 		core.Require{Counter: "result-OK", Why: "no bundle ended OK"},
 		core.Require{Counter: "result-Revoked", Why: "no bundle ended Revoked"},
